@@ -19,4 +19,12 @@ CHECKS = {
         "require_classes": ["load:Null", "load:ShorterThanHeader", "load:MissingPadding", "load:NoEndTag", "load:Ok"],
         "assumptions": ["the region is as large as it declares (precondition of the property); sizes beyond 1 MiB + 16 are not explored"],
     },
+    "C10": {
+        "bin": "c10",
+        "cfgs": {"quick": ["dD", "rD"], "thorough": ["dD", "rD", "dN", "rN"]},
+        "technique": MC + "; full-domain sweep of the checksum law over all 2^32 lengths",
+        "rule": "one leaf per (magic, architecture, length word, checksum word) plus the null pointer, and one leaf per block of the checksum-law sweep; all combinations enumerated, distinct by construction; every leaf is non-trivial (each exercises one comparison of the acceptance predicate or one block of the law)",
+        "require_classes": ["load:Null", "load:ShorterThanHeader", "load:MissingPadding", "load:MagicNotFound", "load:ChecksumMismatch", "load:Ok", "sweep:block"],
+        "assumptions": ["the architecture word holds a defined value (0 or 4) as the property requires", "the header region is as large as it declares"],
+    },
 }
